@@ -105,6 +105,9 @@ def generate(rng, i, tier):
                 "method": rng.choice(meths),
             }
         )
+        if s > 0 and steps[-1]["inst"] == "reused" and rng.random() < 0.2:
+            # a run left unfinished on this instance just before: a generator the caller walked away from
+            steps[-1]["unfinished_before"] = {"method": rng.choice(["next_paths", "next_paths_collect", "next_by_line"]), "group": rng.choice(["g1", "g2"]), "after": rng.randint(1, 2)}
         # the group may be addressed by a reference that selects members: the run still belongs to the group
         g = steps[-1]["group"]
         if rng.random() < 0.25:
@@ -129,7 +132,11 @@ def reductions(sc):
             c = with_(sc)
             c["steps"][j]["method"] = "collect_paths"
             yield c
-        if st["inst"] == "reused":
+        if st.get("unfinished_before"):
+            c = with_(sc)
+            del c["steps"][j]["unfinished_before"]
+            yield c
+        if st["inst"] == "reused" and not st.get("unfinished_before"):
             c = with_(sc)
             c["steps"][j]["inst"] = "new"
             yield c
@@ -160,6 +167,7 @@ def execute(sc):
             for g, ps in GROUPS.items():
                 cs.paths_manager.add_named_paths(name=g, paths=ps)
         runs = []  # dicts: group, invoke, ret, dir, data(bool), epoch, idx
+        abandoned = set()  # run directories of unfinished runs: their spoolers are flushed whenever the garbage collector gets to them
         epoch = 0
         prev_cls = None
         pairs = []
@@ -189,6 +197,23 @@ def execute(sc):
             if prev_cls is not None:
                 pairs.append(f"{prev_cls}>{cls}")
             prev_cls = cls
+            ub = st.get("unfinished_before")
+            if ub:
+                try:
+                    got_ub = ops.run_group(cs, ub["method"], ub["group"], stop_after=ub["after"])
+                    if got_ub is not None and len(got_ub) >= ub["after"]:
+                        out.fault("cancel")
+                        out.probe("run right after an unfinished run on the same instance")
+                        try:
+                            ad = ops.results_of(cs, ub["group"])[0].run_dir
+                            abandoned.add(ad)
+                            # it is a run like any other for naming purposes: it owns a directory and a second
+                            runs.append({"group": ub["group"], "invoke": seams.SimClock.peek(), "ret": seams.SimClock.peek(), "dir": ad, "data": None, "epoch": epoch, "idx": f"{idx}-unfinished", "abandoned": True})
+                        except Exception:  # noqa: BLE001
+                            pass
+                except Exception as e:  # noqa: BLE001
+                    if not ops.in_repo(e):
+                        raise
             before = W.tree_hashes("archive")
             invoke = seams.SimClock.peek()
             ops.run_group(cs, meth, pathsname)
@@ -212,6 +237,8 @@ def execute(sc):
             # (3) earlier files untouched; new files only under own dir
             for p, h in before.items():
                 if p == os.path.join("archive", "manifest.json"):
+                    continue
+                if any(p.startswith(a + os.sep) for a in abandoned) and os.path.basename(p) == "data.csv":
                     continue
                 if after.get(p) != h:
                     out.v("earlier_run_modified", f"{where} {'removed' if p not in after else 'changed'} {p}, a file of an earlier run", reused=st["inst"] == "reused")
@@ -262,10 +289,26 @@ def execute(sc):
                         top = [r for r in cand if all(x is r or _sec(x["ret"]) < _sec(r["invoke"]) for x in cand)]
                     else:
                         top = [r for r in cand if all(x is r or _sec(r["ret"]) < _sec(x["invoke"]) for x in cand)]
-                    if len(top) != 1 or not top[0]["data"]:
+                    if len(top) != 1 or top[0].get("abandoned"):
+                        continue
+                    ref = f"${g}.results.{pref}:{which}.m"
+                    if not top[0]["data"]:
+                        # the most recent (earliest) run kept no data: the reference may fail, but must not quietly hand out another run's data
+                        try:
+                            with ops.quiet():
+                                got = cs.file_manager.get_named_file(ref)
+                        except Exception:  # noqa: BLE001
+                            continue
+                        out.probe(f":{which} onto a run without data")
+                        if got and not got.startswith(top[0]["dir"] + os.sep):
+                            out.v(
+                                f"{which}_wrong",
+                                f"{where}: {ref} resolved to {got}, but the {'most recent' if which == 'last' else 'earliest'} matching run is run {top[0]['idx']} in {top[0]['dir']} (which kept no data for m)",
+                                n_candidates=len(cand),
+                                top_has_no_data=True,
+                            )
                         continue
                     want = os.path.join(top[0]["dir"], "m", "data.csv")
-                    ref = f"${g}.results.{pref}:{which}.m"
                     out.probe(f":{which} resolved")
                     try:
                         with ops.quiet():
@@ -279,13 +322,14 @@ def execute(sc):
                             f"{where}: {ref} resolved to {got}, but the {'most recent' if which == 'last' else 'earliest'} matching run is run {top[0]['idx']} at {want}",
                             n_candidates=len(cand),
                         )
-            out.log(idx, list(cls), d, sorted(p for p in after if p not in before), len(out.violations))
+            out.log(idx, list(cls), d, sorted(p for p in after if p not in before and not any(p.startswith(a + os.sep) for a in abandoned)), len(out.violations))
             if out.violations:
                 break
-        for pr in ("12 or more runs of one group in one second", "group addressed through a member reference", "two runs in one second", "two runs in one second, reused instance", "12:59 -> 13:00", "across midnight", "exactly 12h apart", "ordered pair compared", ":last resolved", ":first resolved"):
+        for pr in ("run right after an unfinished run on the same instance", "12 or more runs of one group in one second", "group addressed through a member reference", "two runs in one second", "two runs in one second, reused instance", "12:59 -> 13:00", "across midnight", "exactly 12h apart", "ordered pair compared", ":last resolved", ":first resolved"):
             out.probe(pr, False)
-        out.nontrivial = len(runs) >= 2
+        out.nontrivial = len([r for r in runs if not r.get("abandoned")]) >= 2
         out.extra["step_class_pairs"] = pairs
         out.states.append(json.dumps(sorted((r["group"], os.path.basename(r["dir"])) for r in runs)))
-        out.log("tree", W.tree_digest(("archive",)))
+        # (files of unfinished runs are left out of the digest: their spoolers are flushed when the garbage collector gets to them)
+        out.log("tree", sorted((p, h) for p, h in W.tree_hashes("archive").items() if not any(p.startswith(a + os.sep) for a in abandoned)))
     return out.done()
